@@ -121,7 +121,7 @@ def check_object(P, ver, s, order_log=None):
                 P.violation("reparse", "C07:v%s:reparse-differs:%s" % (ver, "+".join(bad)), case, observed=clean)
     # foreign comparisons
     P.ev("foreign")
-    foreign = [None, s, clean, (1,), 0, 7.5, b"x", [], {}, object(), type(o), float("nan")]
+    foreign = [s, clean, type(o)] + V.foreign_operands()
     for f in foreign:
         ok, r = obs.call(lambda: (o == f, f == o))
         if not ok:
